@@ -156,7 +156,7 @@ class Node:
             t += '.cl.%s.%s' % (fmt(self.ct), fmt(self.clv))
         elif k == 'rt':
             t += '.rt.%d' % self.N
-        elif k:
+        elif k and k != 'pat':
             t += '.' + k
         if self.extra:
             t += '.' + self.extra
@@ -172,7 +172,7 @@ def rarg_expr(akind, N, slot):
         return 'c11::to_arr<%d>(R[%d])' % (N, slot)
     if akind == 'rtv':
         return 'c11::to_vec(R[%d])' % slot
-    if akind == 'rts':
+    if akind in ('rts', 'slr'):
         return '(int)R[%d][0]' % slot
     if akind == 'cl':
         return None
@@ -319,41 +319,49 @@ def op_concatenate(k1, k2, v1, v2):
     return out
 
 
-# operations outside the Lean transfer model (correspondence + oracle only) -------------------------
+# operations whose transfer functions live in lean/NmVerif/StaticMore.lean -----------------------------
 
 def op_repeat(k, v):
     out = []
-    out.append(Node('repeat', [k], 'ct', ct=(2, 0), npf=lambda a, _: np.repeat(a[0], 2, 0), cxx=lambda e, _: 'view::repeat(%s, 2_ct, 0_ct)' % e[0]))
-    out.append(Node('repeat', [k], 'rts', rfun=lambda s: [2], npf=lambda a, x: np.repeat(a[0], x[0], 0), cxx=lambda e, x: 'view::repeat(%s, %s, 0)' % (e[0], x)))
-    out.append(Node('repeat', [k], 'rts', extra='flat', rfun=lambda s: [3], npf=lambda a, x: np.repeat(a[0], x[0], None), cxx=lambda e, x: 'view::repeat(%s, %s, nm::None)' % (e[0], x)))
+    # repeats: compile-time constant / run-time int; axis: compile-time constant / None / run-time int
+    out.append(Node('repeat', [k], 'ct', ct=(2,), extra='axc0', npf=lambda a, _: np.repeat(a[0], 2, 0), cxx=lambda e, _: 'view::repeat(%s, 2_ct, 0_ct)' % e[0]))
+    out.append(Node('repeat', [k], 'ct', ct=(3,), extra='axn', npf=lambda a, _: np.repeat(a[0], 3, None), cxx=lambda e, _: 'view::repeat(%s, 3_ct, nm::None)' % e[0]))
+    out.append(Node('repeat', [k], 'rts', extra='axr0', rfun=lambda s: [2], npf=lambda a, x: np.repeat(a[0], x[0], 0), cxx=lambda e, x: 'view::repeat(%s, %s, 0)' % (e[0], x)))
+    out.append(Node('repeat', [k], 'rts', extra='axn', rfun=lambda s: [3], npf=lambda a, x: np.repeat(a[0], x[0], None), cxx=lambda e, x: 'view::repeat(%s, %s, nm::None)' % (e[0], x)))
     return out
 
 
 def op_pad(k, v):
     r = len(v)
-    w = [1, 0] * r  # nmtools order: before_0.., after_0..  -> use symmetric description below
     before = [1] + [0] * (r - 1); after = [0] * (r - 1) + [2]
-    flat = before + after
+    flat = before + after        # nmtools order: before_0.., after_0..
     npw = list(zip(before, after))
     out = [Node('pad', [k], 'rt', N=2 * r, rfun=lambda s, r=r, flat=flat: flat if len(s[0]) == r else None,
                 npf=lambda a, x, r=r: np.pad(a[0], list(zip(x[:r], x[r:]))), cxx=lambda e, x: 'view::pad(%s, %s)' % (e[0], x))]
     out.append(Node('pad', [k], 'ct', ct=tuple(flat), npf=lambda a, _, npw=npw: np.pad(a[0], npw),
                     cxx=lambda e, _, flat=flat: 'view::pad(%s, %s)' % (e[0], ct_tuple(flat))))
+    mx = [x + 1 for x in flat]
+    out.append(Node('pad', [k], 'cl', ct=tuple(mx), N=len(flat), npf=lambda a, _, npw=npw: np.pad(a[0], npw),
+                    cxx=lambda e, _, flat=flat, mx=mx: 'view::pad(%s, %s)' % (e[0], cl_tuple(flat, mx)), clv=tuple(flat)))
+    out.append(Node('pad', [k], 'rtv', rfun=lambda s: [1] + [0] * (len(s[0]) - 1) + [0] * (len(s[0]) - 1) + [2],
+                    npf=lambda a, x: np.pad(a[0], list(zip(x[:len(x) // 2], x[len(x) // 2:]))), cxx=lambda e, x: 'view::pad(%s, %s)' % (e[0], x)))
     return out
 
 
 def op_cumsum(k, v):
     return [Node('cumsum', [k], 'rts', rfun=lambda s: [0], npf=lambda a, x: np.cumsum(a[0], x[0]), cxx=lambda e, x: 'view::cumsum(%s, %s)' % (e[0], x)),
-            Node('cumsum', [k], 'ct', ct=0, npf=lambda a, _: np.cumsum(a[0], 0), cxx=lambda e, _: 'view::cumsum(%s, 0_ct)' % e[0])]
+            Node('cumsum', [k], 'cts', ct=0, npf=lambda a, _: np.cumsum(a[0], 0), cxx=lambda e, _: 'view::cumsum(%s, 0_ct)' % e[0])]
 
 
 def op_roll(k, v):
-    return [Node('roll', [k], 'rts', rfun=lambda s: [1], npf=lambda a, x: np.roll(a[0], x[0]), cxx=lambda e, x: 'view::roll(%s, %s)' % (e[0], x)),
-            Node('roll', [k], 'ct', ct=(1, 0), npf=lambda a, _: np.roll(a[0], 1, 0), cxx=lambda e, _: 'view::roll(%s, 1_ct, 0_ct)' % e[0])]
+    return [Node('roll', [k], 'rts', extra='axn', rfun=lambda s: [1], npf=lambda a, x: np.roll(a[0], x[0]), cxx=lambda e, x: 'view::roll(%s, %s)' % (e[0], x)),
+            Node('roll', [k], 'rts', extra='axr0', rfun=lambda s: [1], npf=lambda a, x: np.roll(a[0], x[0], 0), cxx=lambda e, x: 'view::roll(%s, %s, 0)' % (e[0], x)),
+            Node('roll', [k], 'ct', ct=(1,), extra='axc0', npf=lambda a, _: np.roll(a[0], 1, 0), cxx=lambda e, _: 'view::roll(%s, 1_ct, 0_ct)' % e[0])]
 
 
 def op_flip(k, v):
     return [Node('flip', [k], 'none', npf=lambda a, _: np.flip(a[0]), cxx=lambda e, _: 'view::flip(%s, nm::None)' % e[0]),
+            Node('flip', [k], 'cts', ct=0, npf=lambda a, _: np.flip(a[0], 0), cxx=lambda e, _: 'view::flip(%s, 0_ct)' % e[0]),
             Node('flip', [k], 'rts', rfun=lambda s: [0], npf=lambda a, x: np.flip(a[0], x[0]), cxx=lambda e, x: 'view::flip(%s, %s)' % (e[0], x))]
 
 
@@ -366,18 +374,22 @@ def op_moveaxis(k, v):
 
 
 def op_take(k, v):
-    return [Node('take', [k], 'rt', N=3, rfun=lambda s: [0, s[0][0] - 1, 0], npf=lambda a, x: np.take(a[0], x, 0),
+    return [Node('take', [k], 'rt', N=3, extra='axr0', rfun=lambda s: [0, s[0][0] - 1, 0], npf=lambda a, x: np.take(a[0], x, 0),
                  cxx=lambda e, x: 'view::take(%s, %s, 0)' % (e[0], x)),
-            Node('take', [k], 'rtv', rfun=lambda s: [s[0][0] - 1, 0], npf=lambda a, x: np.take(a[0], x, 0),
-                 cxx=lambda e, x: 'view::take(%s, %s, 0)' % (e[0], x))]
+            Node('take', [k], 'rtv', extra='axr0', rfun=lambda s: [s[0][0] - 1, 0], npf=lambda a, x: np.take(a[0], x, 0),
+                 cxx=lambda e, x: 'view::take(%s, %s, 0)' % (e[0], x)),
+            Node('take', [k], 'ct', ct=(0, 0, 0), extra='axc0', npf=lambda a, _: np.take(a[0], [0, 0, 0], 0),
+                 cxx=lambda e, _: 'view::take(%s, %s, 0_ct)' % (e[0], ct_tuple((0, 0, 0))))]
 
 
 def op_slice(k, v):
     r = len(v)
     if r < 2:
         return []
-    return [Node('slice', [k], 'ct', ct=0, npf=lambda a, _: a[0][..., 0:1], cxx=lambda e, _: 'view::slice(%s, nm::Ellipsis, nmtools_tuple{0,1})' % e[0]),
-            Node('slice', [k], 'rts', rfun=lambda s: [1] if len(s[0]) >= 2 else None, npf=lambda a, x: a[0][0:x[0]], cxx=lambda e, x: 'view::slice(%s, nmtools_tuple{0,%s}, nm::Ellipsis)' % (e[0], x))]
+    # token fields: the slice entries, `e` = Ellipsis, `r<a>_<b>` = a:b (run-time ints in a tuple), `i<k>` = integer index
+    return [Node('slice', [k], 'sl', extra='e.r0_1', npf=lambda a, _: a[0][..., 0:1], cxx=lambda e, _: 'view::slice(%s, nm::Ellipsis, nmtools_tuple{0,1})' % e[0]),
+            Node('slice', [k], 'slr', rfun=lambda s: [1] if len(s[0]) >= 2 else None, npf=lambda a, x: a[0][0:x[0]], cxx=lambda e, x: 'view::slice(%s, nmtools_tuple{0,%s}, nm::Ellipsis)' % (e[0], x)),
+            Node('slice', [k], 'sl', extra='i0.e', npf=lambda a, _: a[0][0, ...], cxx=lambda e, _: 'view::slice(%s, 0, nm::Ellipsis)' % e[0])]
 
 
 def op_atleast_3d(k, v):
@@ -385,9 +397,51 @@ def op_atleast_3d(k, v):
                  cxx=lambda e, _: 'view::atleast_nd(%s, 3_ct)' % e[0])]
 
 
+# three-operand broadcasting: view::where(c, x, y) and view::broadcast_arrays(p, q, r)[0]  (view::clip, the third user of
+# broadcast_arrays with three operands, does not compile in the unchanged library for any operand kinds: its test is disabled too).  The operand pattern says what stands in each position: a = first array,
+# b = second array, s = a number literal (size type ct<1>, shape None).
+_LIT = {'where': ('1', '7', '7'), 'bcast3': ('7', '7', '7')}
+
+
+def _three(name, pat, kids):
+    lit = _LIT[name]
+
+    def vals(a):
+        return [a[0] if ch == 'a' else (a[1] if ch == 'b' else int(lit[i])) for i, ch in enumerate(pat)]
+
+    def exprs(e):
+        return [e[0] if ch == 'a' else (e[1] if ch == 'b' else lit[i]) for i, ch in enumerate(pat)]
+    if name == 'where':
+        npf = lambda a, _: (lambda v: np.where(np.asarray(v[0]) != 0, v[1], v[2]))(vals(a))
+        cxx = lambda e, _: 'view::where(%s, %s, %s)' % tuple(exprs(e))
+    else:
+        npf = lambda a, _: (lambda v: np.broadcast_arrays(*[np.asarray(x) for x in v])[0])(vals(a))
+        cxx = lambda e, _: 'c11::first(view::broadcast_arrays(%s, %s, %s))' % tuple(exprs(e))
+    return Node(name, kids, 'pat', extra=pat, npf=npf, cxx=cxx)
+
+
+PAT2 = ['aab', 'asb', 'abs', 'sab', 'sba', 'bas', 'bsa']
+PAT1 = ['ass', 'sas', 'ssa']
+
+
 def op_where(k1, k2, v1, v2):
-    return [Node('where', [k1, k2], npf=lambda a, _: np.where(a[0] != 0, a[0], a[1]),
-                 cxx=lambda e, _: 'view::where(%s, %s, %s)' % (e[0], e[0], e[1]))]
+    return [_three('where', 'aab', [k1, k2])]
+
+
+def op_where3(k1, k2, v1, v2):
+    return [_three('where', pat, [k1, k2]) for pat in PAT2]
+
+
+def op_bcast3(k1, k2, v1, v2):
+    return [_three('bcast3', pat, [k1, k2]) for pat in ('asb', 'sab', 'bsa', 'aab')]
+
+
+def op_where1(k, v):
+    return [_three('where', pat, [k]) for pat in PAT1]
+
+
+def op_bcast1(k, v):
+    return [_three('bcast3', 'ass', [k]), _three('bcast3', 'sas', [k])]
 
 
 def _matmul2d(a, b):
@@ -404,15 +458,117 @@ def op_multiply_scalar(k, v):
     return [Node('mulscalar', [k], npf=lambda a, _: a[0] * 3, cxx=lambda e, _: 'view::multiply(%s, 3)' % e[0])]
 
 
+
+# view kinds without a Lean transfer function: static knowledge vs run-time objects and NumPy only ------------------------
+
+def op_eye(k, v):
+    # no array operand: the leaf only supplies run-time numbers (its instance shape); kinds of N, M: constant / run-time
+    return [Node('eye', [k], 'ct', ct=(2, 3), npf=lambda a, _: np.eye(2, 3), cxx=lambda e, _: 'view::eye(2_ct, 3_ct)'),
+            Node('eye', [k], 'cts', ct=3, npf=lambda a, _: np.eye(3), cxx=lambda e, _: 'view::eye(3_ct)'),
+            Node('eye', [k], 'rt', N=2, rfun=lambda s: [s[0][0], s[0][-1] + 1], npf=lambda a, x: np.eye(x[0], x[1]),
+                 cxx=lambda e, x: 'view::eye((size_t)(%s)[0], (size_t)(%s)[1])' % (x, x)),
+            Node('eye', [k], 'rts', rfun=lambda s: [s[0][-1]], npf=lambda a, x: np.eye(x[0]), cxx=lambda e, x: 'view::eye((size_t)%s)' % x)]
+
+
+def op_tri(k, v):
+    return [Node('tri', [k], 'ct', ct=(2, 3), npf=lambda a, _: np.tri(2, 3), cxx=lambda e, _: 'view::tri(2_ct, 3_ct)'),
+            Node('tri', [k], 'rt', N=2, rfun=lambda s: [s[0][0], s[0][-1] + 1], npf=lambda a, x: np.tri(x[0], x[1]),
+                 cxx=lambda e, x: 'view::tri((size_t)(%s)[0], (size_t)(%s)[1])' % (x, x))]
+
+
+def op_tril(k, v):
+    if len(v) < 2:
+        return []
+    return [Node('tril', [k], 'none', npf=lambda a, _: np.tril(a[0]), cxx=lambda e, _: 'view::tril(%s)' % e[0]),
+            Node('tril', [k], 'cts', ct=1, npf=lambda a, _: np.tril(a[0], 1), cxx=lambda e, _: 'view::tril(%s, 1_ct)' % e[0]),
+            Node('triu', [k], 'rts', rfun=lambda s: [1], npf=lambda a, x: np.triu(a[0], x[0]), cxx=lambda e, x: 'view::triu(%s, %s)' % (e[0], x))]
+
+
+def _pool(a, kh, kw, sh, sw, ceil, red):
+    H, W = a.shape[-2:]
+    if H < kh or W < kw:
+        raise ValueError('kernel larger than the array')
+    f = (lambda n, k, s: -(-(n - k) // s) + 1) if ceil else (lambda n, k, s: (n - k) // s + 1)
+    oh, ow = f(H, kh, sh), f(W, kw, sw)
+    out = np.zeros(a.shape[:-2] + (oh, ow), dtype=np.int64)
+    for i in range(oh):
+        for j in range(ow):
+            out[..., i, j] = red(a[..., i * sh:i * sh + kh, j * sw:j * sw + kw].reshape(a.shape[:-2] + (-1,)), axis=-1)
+    return out
+
+
+def op_pool2d(k, v):
+    if len(v) < 2:
+        return []
+    return [Node('max_pool2d', [k], 'ct', ct=(2, 2), extra='s1.c0', npf=lambda a, _: _pool(a[0], 2, 2, 1, 1, False, np.max),
+                 cxx=lambda e, _: 'view::max_pool2d(%s, nmtools_tuple{2_ct,2_ct}, nmtools_tuple{1_ct,1_ct}, nm::False)' % e[0]),
+            Node('max_pool2d', [k], 'rt', N=2, extra='s2.c1', rfun=lambda s: [2, 2], npf=lambda a, x: _pool(a[0], x[0], x[1], 2, 2, True, np.max),
+                 cxx=lambda e, x: 'view::max_pool2d(%s, %s, std::array<int,2>{2,2}, nm::True)' % (e[0], x)),
+            Node('avg_pool2d', [k], 'rt', N=2, extra='s1.c0', rfun=lambda s: [2, 1], npf=lambda a, x: _pool(a[0], x[0], x[1], 1, 1, False, np.sum),
+                 cxx=lambda e, x: 'view::avg_pool2d(%s, %s, std::array<int,2>{1,1}, nm::False)' % (e[0], x))]
+
+
+def op_resize(k, v):
+    r = len(v)
+    t = [3, 4, 2, 2][:r]
+    # the element map of view::resize (nearest neighbour) is not NumPy's: only the shape is the reference here
+    return [Node('resize', [k], 'ct', ct=tuple(t), npf=lambda a, _, t=t: np.zeros(t, dtype=np.int64), cxx=lambda e, _, t=t: 'view::resize(%s, %s)' % (e[0], ct_tuple(t))),
+            Node('resize', [k], 'rt', N=r, rfun=lambda s, r=r: [x + 1 for x in s[0]] if len(s[0]) == r else None,
+                 npf=lambda a, x: np.zeros(x, dtype=np.int64), cxx=lambda e, x: 'view::resize(%s, %s)' % (e[0], x)),
+            Node('resize', [k], 'rtv', rfun=lambda s: [x + 2 for x in s[0]], npf=lambda a, x: np.zeros(x, dtype=np.int64),
+                 cxx=lambda e, x: 'view::resize(%s, %s)' % (e[0], x))]
+
+
+def _swv(a, w, ax):
+    return np.lib.stride_tricks.sliding_window_view(a, w, ax)
+
+
+def op_sliding_window(k, v):
+    r = len(v)
+    full = tuple([1] * (r - 1) + [2])
+    return [Node('sliding_window', [k], 'cts', ct=2, extra='axc', npf=lambda a, _, r=r: _swv(a[0], 2, r - 1),
+                 cxx=lambda e, _, r=r: 'view::sliding_window(%s, 2_ct, %d_ct)' % (e[0], r - 1)),
+            Node('sliding_window', [k], 'ct', ct=full, extra='axn', npf=lambda a, _, full=full: _swv(a[0], full, None),
+                 cxx=lambda e, _, full=full: 'view::sliding_window(%s, %s)' % (e[0], ct_tuple(full))),
+            Node('sliding_window', [k], 'rts', extra='axr', rfun=lambda s: [2], npf=lambda a, x: _swv(a[0], x[0], a[0].ndim - 1),
+                 cxx=lambda e, x: 'view::sliding_window(%s, %s, -1)' % (e[0], x)),
+            Node('sliding_window', [k], 'rt', N=r, extra='axn', rfun=lambda s, r=r: ([1] * (r - 1) + [2]) if len(s[0]) == r else None,
+                 npf=lambda a, x: _swv(a[0], tuple(x), None), cxx=lambda e, x: 'view::sliding_window(%s, %s)' % (e[0], x))]
+
+
+def op_compress(k, v):
+    return [Node('compress', [k], 'ct', ct=(1, 0), extra='axc0', npf=lambda a, _: np.compress([1, 0], a[0], 0),
+                 cxx=lambda e, _: 'view::compress(nmtools_tuple{1_ct,0_ct}, %s, 0_ct)' % e[0]),
+            Node('compress', [k], 'rt', N=2, extra='axr', rfun=lambda s: [0, 1] if s[0][-1] >= 2 else None,
+                 npf=lambda a, x: np.compress(x, a[0], a[0].ndim - 1), cxx=lambda e, x: 'view::compress(%s, %s, -1)' % (x, e[0])),
+            Node('compress', [k], 'rtv', extra='axr0', rfun=lambda s: ([1, 0, 1] * 4)[:s[0][0]], npf=lambda a, x: np.compress(x, a[0], 0),
+                 cxx=lambda e, x: 'view::compress(%s, %s, 0)' % (x, e[0]))]
+
+
+def op_outer(k1, k2, v1, v2):
+    return [Node('outer_add', [k1, k2], npf=lambda a, _: np.add.outer(a[0], a[1]), cxx=lambda e, _: 'view::outer_add(%s, %s)' % (e[0], e[1]))]
+
+
+GEN_UNARY = [op_tril, op_pool2d, op_resize, op_sliding_window, op_compress]
+GEN_NULLARY = [op_eye, op_tri]
+GEN_BINARY = [op_outer]
+
 MODELLED_UNARY = [op_transpose, op_reshape, op_flatten, op_broadcast_to, op_tile, op_expand_dims, op_squeeze, op_sum, op_negative]
 MODELLED_BINARY = [op_add, op_concatenate]
+# second group (transfer functions in StaticMore.lean); generated for fewer leaf kinds in the quick tier (compile time)
 EXTRA_UNARY = [op_repeat, op_pad, op_cumsum, op_roll, op_flip, op_moveaxis, op_take, op_slice, op_atleast_3d, op_multiply_scalar]
 EXTRA_BINARY = [op_where, op_matmul]
-MODELLED = {'transpose', 'reshape', 'flatten', 'broadcast_to', 'tile', 'expand_dims', 'squeeze', 'sum', 'negative', 'add', 'concatenate'}
+MODELLED = {'transpose', 'reshape', 'flatten', 'broadcast_to', 'tile', 'expand_dims', 'squeeze', 'sum', 'negative', 'add', 'concatenate',
+            'repeat', 'pad', 'cumsum', 'roll', 'flip', 'moveaxis', 'take', 'slice', 'atleast_3d', 'mulscalar', 'where', 'matmul', 'bcast3'}
 
-HEADERS = ['transpose', 'reshape', 'flatten', 'broadcast_to', 'tile', 'expand_dims', 'squeeze', 'sum', 'ufuncs/negative', 'ufuncs/add',
-           'concatenate', 'repeat', 'pad', 'cumsum', 'roll', 'flip', 'moveaxis', 'take', 'slice', 'atleast_nd', 'ufuncs/multiply',
-           'ufuncs/mod', 'where', 'matmul']
+# header of each view function; a TU includes only what its programs use (compile time)
+HEADER_OF = {'transpose': 'transpose', 'reshape': 'reshape', 'flatten': 'flatten', 'broadcast_to': 'broadcast_to', 'tile': 'tile',
+             'expand_dims': 'expand_dims', 'squeeze': 'squeeze', 'sum': 'sum', 'negative': 'ufuncs/negative', 'add': 'ufuncs/add',
+             'concatenate': 'concatenate', 'repeat': 'repeat', 'pad': 'pad', 'cumsum': 'cumsum', 'roll': 'roll', 'flip': 'flip',
+             'moveaxis': 'moveaxis', 'take': 'take', 'slice': 'slice', 'atleast_3d': 'atleast_nd', 'mulscalar': 'ufuncs/multiply',
+             'where': 'where', 'bcast3': 'broadcast_arrays', 'matmul': 'matmul', 'eye': 'eye', 'tri': 'tri', 'tril': 'tril', 'triu': 'triu', 'max_pool2d': 'pooling',
+             'avg_pool2d': 'pooling', 'resize': 'resize', 'sliding_window': 'sliding_window', 'compress': 'compress', 'outer_add': 'ufuncs/add'}
+BASE_HEADERS = ['ufuncs/add', 'ufuncs/mod']
 
 
 # ------------------------------------------------------------------------------------------------
@@ -474,7 +630,11 @@ class Program:
                     raise ValueError('instance not applicable')
                 x = [int(t) for t in x]
                 rargs.append(x)
-            return np.asarray(n.npf(arrs, x))
+            res = np.asarray(n.npf(arrs, x))
+            if res.ndim == 0:
+                # domain of the generator: every intermediate view has rank >= 1 (a run-time squeeze of an all-ones instance ends here)
+                raise ValueError('rank-0 intermediate')
+            return res
         r = rec(self.root)
         return r, rargs
 
@@ -512,7 +672,7 @@ def nominal(node):
 
 
 def unary_variants(facts, kid):
-    v = nominal(kid)
+    v = nominal(kid) if not kid.is_leaf else tuple(kid.P)
     out = []
     for f in facts:
         try:
@@ -559,7 +719,7 @@ def build_programs(tier):
     # depth 1, unary: every op variant x every leaf kind
     for kind in kinds:
         leaf = lambda P, kind=kind: Leaf(kind, P)
-        extra = EXTRA_UNARY if kind in (('cs', 'cl', 'fd', 'dy') if tier == 'quick' else ('cs', 'fx', 'cl', 'cla', 'fd', 'fdf', 'bd', 'dy')) else []
+        extra = EXTRA_UNARY if kind in (('cs', 'cl', 'fd', 'bd', 'dy') if tier == 'quick' else LEAF_KINDS) else []
         for n in unary_variants(MODELLED_UNARY + extra, leaf((2, 3))):
             if n.name == 'squeeze':
                 continue
@@ -589,6 +749,41 @@ def build_programs(tier):
                     add(n)
                 for n in binary_variants([op_matmul], Leaf(k1, (2, 3)), Leaf(k2, (3, 2))):
                     add(n)
+    # view kinds without a Lean transfer: every op variant x every leaf kind (depth 1); eye / tri have no array operand
+    for kind in (('cs', 'cl', 'fd', 'bd', 'dy') if tier == 'quick' else kinds):
+        for P in ((2, 3), (4, 4)) if tier != 'quick' else ((3, 4),):
+            for n in unary_variants(GEN_UNARY, Leaf(kind, P)):
+                add(n)
+    for n in unary_variants(GEN_NULLARY, Leaf('dy', (2, 3))):
+        add(n)
+    for k1 in kinds:
+        for k2 in partners:
+            if tier == 'quick' and k2 != 'cs' and k1 not in ('cs', 'cl'):
+                continue
+            for n in binary_variants([op_outer], Leaf(k1, (2, 3)), Leaf(k2, (2,))):
+                add(n)
+    # matmul where the product bound of the operands' sizes is TIGHT: (3,1) x (1,3) has 9 = 3 * 3 elements
+    for k1 in (('cs', 'cl', 'fdh') if tier == 'quick' else ('cs', 'cl', 'cla', 'fdf', 'fdh')):
+        for k2 in (('cl',) if tier == 'quick' else ('cs', 'cl', 'fdh')):
+            for n in binary_variants([op_matmul], Leaf(k1, (3, 1)), Leaf(k2, (1, 3))):
+                add(n)
+    # three-operand broadcasting with a number literal in every position (index::broadcast_size: the size type of the FIRST operand
+    # survives only next to operands of size ct<1>): first array fixed-size / hybrid / dynamic, second array stretches the result
+    firsts = ('cs', 'fdf', 'fdh') if tier == 'quick' else ('cs', 'fx', 'fdf', 'fdh', 'cl', 'dy')
+    seconds = ('dy', 'fdf') if tier == 'quick' else ('dy', 'fd', 'fdf', 'cs')
+    for k1 in firsts:
+        for k2 in seconds:
+            for n in binary_variants([op_where3, op_bcast3], Leaf(k1, (2, 1)), Leaf(k2, (7,))):
+                add(n)
+    for k1 in (('cs', 'fdf', 'fdh', 'dy') if tier == 'quick' else kinds):
+        for n in unary_variants([op_where1, op_bcast1], Leaf(k1, (2, 3))):
+            add(n)
+    # where(c, c, y) with a one-element condition: the class of the known finding C11.where-tripled-fixed-size (fdf partner)
+    # and its sound neighbours (bounded / constant-shape / dynamic partner)
+    for k1, P1 in (('fdf', (1, 1)), ('cs', (1, 1)), ('cs', (1,))):
+        for k2 in ('fdf', 'fdh', 'cs', 'dy'):
+            for n in binary_variants([op_where], Leaf(k1, P1), Leaf(k2, (2, 3))):
+                add(n)
     # depth 2 and 3: sampled compositions
     n2, n3 = (110, 25) if tier == 'quick' else (450, 220)
     una = MODELLED_UNARY + EXTRA_UNARY
@@ -670,7 +865,12 @@ def write_tus(progs, tier, outdir):
     res = []
     for k, b in enumerate(buckets):
         src = ['// generated by harness/gen_c11.py — do not edit', '#include "c11_support.hpp"']
-        src += ['#include "nmtools/array/view/%s.hpp"' % h for h in HEADERS]
+        hs = list(BASE_HEADERS)
+        for p in b:
+            for n in p.nodes:
+                if HEADER_OF[n.name] not in hs:
+                    hs.append(HEADER_OF[n.name])
+        src += ['#include "nmtools/array/view/%s.hpp"' % h for h in hs]
         for p in b:
             src.append(p.cxx_function())
         src.append('std::string handle(const std::string& op, const proto::Args& a) {')
